@@ -129,6 +129,18 @@ func ResponseCases(seed int64, n int) []Case {
 			"responses": M{"200": Ref("responses", "Pet"), "404": Ref("responses", "Error")}})
 		d.Op("/pets", "post", M{"responses": M{"201": Ref("responses", "Pet"),
 			"400": M{"description": "inline", "content": M{"application/json;charset=UTF-8": M{"schema": Ref("schemas", "Pet")}}}}})
+		{
+			// one header component under two different header names: a header component
+			// has no name of its own, the name is the key it is referenced under
+			d := NewDoc("hdr-comp-names")
+			d.Comp("headers", "Count", M{"schema": Prim("integer", "int64"), "required": true})
+			d.Comp("headers", "Note", M{"schema": Prim("string", "")})
+			d.Op("/limits", "get", M{"responses": M{"200": M{"description": "ok", "headers": M{"X-Rate-Limit": Ref("headers", "Count"), "X-Note": Ref("headers", "Note")}}}})
+			d.Op("/usage", "get", M{"responses": M{"200": M{"description": "ok", "headers": M{"X-Rate-Remaining": Ref("headers", "Count"), "X-Remark": Ref("headers", "Note")}},
+				"default": M{"description": "e", "headers": M{"X-Rate-Reset": Ref("headers", "Count")}}}})
+			id := "resp-fixed-header-component-under-two-names"
+			out = append(out, Case{ID: id, Family: "response", Spec: d.Root, Flags: Flags{Client: true}, Safe: true, Label: map[string]string{"set": id}})
+		}
 		id := "resp-fixed-json-media-type-with-charset"
 		out = append(out, Case{ID: id, Family: "response", Spec: d.Root, Flags: Flags{Client: true}, Safe: false, Label: map[string]string{"set": id}})
 	}
